@@ -271,6 +271,14 @@ class Engine:
         ctx.notes.append('generated constants: %r' % (consts,))
         if not ctx.coq():
             ctx.broken_proof()
+        if ctx.thorough and getattr(ctx, 'coq_ok', False):
+            with vf.Lock('coq'):
+                rc, so, se = vf.sh('timeout 1200 coqchk -silent -o -R theories FEC FEC.Properties.%s' % pid, cwd=vf.COQ, timeout=1260)
+            summary = ' '.join((so + se).split())
+            ok = rc == 0 and 'Axioms: <none>' in summary and 'type-in-type: <none>' in summary and 'positivity is assumed: <none>' in summary
+            ctx.obligation('coqchk -o over the closure of Properties/%s.vo: no axioms, no assumed positivity/guardedness' % pid, ok, 'coqchk', summary[-500:])
+            if not ok:
+                ctx.broken_proof('coqchk does not accept the compiled development')
         self.model = vf.build_extracted(pid.lower(), pid, 'c04_driver.ml')
         self.lib = Lib(ctx)
         self.default_maxe = self.lib.max_expected
@@ -382,42 +390,52 @@ class Engine:
             for ch, (ir, ia), (mr, ma, sr) in zip(chs, ii, mm):
                 ctx.case((case.stream, case.maxp, case.maxe, case.rb, case.ro, ch))
                 ctx.count('chunking:' + ('explicit' if ch.startswith('c:') else ch))
+                kinds = set()
                 if ir != sr:
-                    mism.append((case, ch, 'spec'))
+                    kinds.add('spec')
                 elif ir != mr:
-                    mism.append((case, ch, 'model'))
-                elif ia != ma:
-                    mism.append((case, ch, 'attrs'))
+                    kinds.add('model')
+                if ia != ma:
+                    kinds.add('attrs')
+                if kinds:
+                    mism.append((case, ch, kinds))
         ctx.count('mismatching (stream, chunking) evaluations', len(mism))
         if not mism:
             return 0
         # diagnose a spread of the mismatches in one verbose batch, group by structural signature
-        step = max(1, len(mism) // 600)
-        pick = mism[::step][:600]
+        def spread(l, n):
+            return l[::max(1, len(l) // n)][:n]
+        pick = (spread([m for m in mism if 'spec' in m[2]], 400) + spread([m for m in mism if 'model' in m[2]], 100) +
+                spread([m for m in mism if 'attrs' in m[2] and 'spec' not in m[2]], 200) +
+                spread([m for m in mism if 'attrs' in m[2] and 'spec' in m[2]], 200))
         vcases = [Case(c.tokens, c.maxp, c.maxe, c.rb, c.ro, ch, c.origin) for c, ch, _ in pick]
         vres = self.run(vcases, 'V')
         groups = {}
-        for (case, ch, kind), vc, r in zip(pick, vcases, vres):
+        for (case, ch, kinds), vc, r in zip(pick, vcases, vres):
             if isinstance(r, str):
                 raise RuntimeError(r)
             orc, ii, mm = r
             v = {'oracle': orc, 'impl_R': ii[0][0], 'impl_A': ii[0][1], 'model_R': mm[0][0], 'model_A': mm[0][1], 'spec_R': mm[0][2]}
+            found = False
             if v['impl_R'] != v['spec_R']:
                 sig = classify(v['impl_R'], v['model_R'], v['spec_R'])
-                key = ('spec', json.dumps(sig, sort_keys=True))
+                groups.setdefault(('spec', json.dumps(sig, sort_keys=True)), []).append((vc, ch, sig, v)); found = True
             elif v['impl_R'] != v['model_R']:
-                sig, key = None, ('model', '')
-            elif v['impl_A'] != v['model_A']:
+                groups.setdefault(('model', ''), []).append((vc, ch, None, v)); found = True
+            if v['impl_A'] != v['model_A']:
+                found = True
                 if '?' in v['impl_A']:
                     note = 'private decoder attributes missing in the implementation; state comparison skipped'
                     if note not in ctx.notes:
                         ctx.notes.append(note)
-                    continue
-                sig, key = None, ('attrs', '')
-            else:
+                    # compare the attributes that do exist
+                    ia_, ma_ = [x.split(',') for x in v['impl_A'].split(';') if x], [x.split(',') for x in v['model_A'].split(';') if x]
+                    if len(ia_) != len(ma_) or any(a != '?' and a != b for x, y in zip(ia_, ma_) for a, b in zip(x, y)):
+                        groups.setdefault(('attrs', ''), []).append((vc, ch, None, v))
+                else:
+                    groups.setdefault(('attrs', ''), []).append((vc, ch, None, v))
+            if not found:
                 raise RuntimeError('digest mismatch not reproduced in verbose mode: %r' % (vc.describe(),))
-            g = groups.setdefault(key, [])
-            g.append((vc, ch, sig, v))
         for (kind, _), g in groups.items():
             g.sort(key=lambda t: len(t[0].stream))
             vc, ch, sig, v = g[0]
@@ -494,17 +512,25 @@ def build_cases(ctx, lib, profile):
             if p:
                 p[r.randrange(len(p))] = r.randrange(256)
         add([('valid_pert', mk(c['type'], bytes(p), g.nseq(), ver=c['version'] or 0)), ('valid', follower)], M24, None, 1, 1, 'per-class')
-    # classes whose default object cannot be serialised: a message of that type with a short payload
+        # CRC failure on a message of this class (the decoder consults cls.calcsize() on that path), then a valid message
+        bad = bytearray(m); bad[r.randrange(24, len(bad)) if len(bad) > 24 else 5] ^= 1 << r.randrange(8)
+        add([('flip', bytes(bad)), ('valid', follower)], M24, None, 1, 1, 'per-class')
+    # classes whose default object cannot be serialised: a message of that type with a short payload, and a CRC failure
     for c in lib.unbuildable:
         add([('lenerr_greedy', mk(c['type'], bytes(8), g.nseq())), ('valid', g.valid_msg())], M24, None, 1, 1, 'per-class-unbuildable')
+        add([('flip', mk(c['type'], bytes(8), g.nseq(), crc=12345)), ('valid', g.valid_msg())], M24, None, 1, 1, 'per-class-unbuildable')
     # bounded-exhaustive token sequences
     import itertools
-    maxlen = (4 if profile == 'C04' else 3) if thorough else (3 if profile == 'C04' else 2)
-    if thorough and profile == 'C04':
-        maxlen = 4
+    # C04: all sequences up to length 3 (quick) / 4 (thorough); C05 (about 100 chunkings per stream): all up to length 2
+    # and every 4th of length 3 (quick), all up to 3 and every 16th of length 4 (thorough)
+    full = {('C04', False): 3, ('C04', True): 4, ('C05', False): 2, ('C05', True): 3}[(profile, thorough)]
+    sampled = {('C04', False): None, ('C04', True): None, ('C05', False): (3, 4), ('C05', True): (4, 16)}[(profile, thorough)]
     k = 0
-    for n in range(1, maxlen + 1):
-        for seq in itertools.product(KINDS, repeat=n):
+    for n in range(1, (sampled[0] if sampled else full) + 1):
+        phase = r.randrange(sampled[1]) if sampled else 0
+        for j, seq in enumerate(itertools.product(KINDS, repeat=n)):
+            if n > full and (j + phase) % sampled[1]:
+                continue
             toks = [(kd, g.token(kd)) for kd in seq]
             stream = b''.join(b for _, b in toks)
             maxp, maxe = configs_for(r, stream, k)
@@ -526,7 +552,7 @@ def build_cases(ctx, lib, profile):
                 for ro in (0, 1):
                     add(toks, maxp, maxe, rb, ro, 'all-settings')
     # random longer sequences
-    nrand = (50000 if profile == 'C04' else 6000) if thorough else (2000 if profile == 'C04' else 300)
+    nrand = (150000 if profile == 'C04' else 5000) if thorough else (8000 if profile == 'C04' else 400)
     for i in range(nrand):
         toks = [(kd, g.token(kd)) for kd in [r.choice(KINDS) for _ in range(r.randint(3, 9))]]
         stream = b''.join(b for _, b in toks)
@@ -573,6 +599,13 @@ def run(ctx):
     cases = build_cases(ctx, eng.lib, 'C04')
     ctx.log('%d streams, %d (stream, chunking) evaluations' % (len(cases), sum(n_chunkings(c) for c in cases)))
     eng.evaluate(cases)
+    # the vm_compute witness of C04_exact_refuted, replayed on the implementation
+    w = [c for c in cases if c.origin == 'corpus:coq-witness-bad-pose.json']
+    if w:
+        sig, _, v = eng.signature_of(w[0], 'ONE')
+        ok = bool(sig) and sig.get('kind') == 'crc-valid-message-not-returned'
+        ctx.obligation('witness of C04_exact_refuted reproduces on the implementation (scan accepts the 27-byte Pose, on_data returns nothing)',
+                       ok, 'witness-replay', json.dumps(v)[:400])
     common_evidence(ctx, eng, 'C04', cases)
 
 
